@@ -136,29 +136,37 @@ def capParse (c : Cur) : Outcome Cur :=
   | .err => .err
   | .panic => .panic
 
-/-- `while parser.pos() < limit { Capability::parse }` -/
-def capLoop (limit : Nat) : Nat → Cur → Outcome Cur
-  | 0, c => .ok c
+/-- `while caps_parser.remaining() > 0 { Capability::parse(&mut caps_parser)? }`
+on a parser limited to the parameter value -/
+def capLoop : Nat → Cur → Outcome Unit
+  | 0, _ => .ok ()
   | f + 1, c =>
-    if c.pos < limit then
+    if c.pos < c.data.length then
       match capParse c with
-      | .ok c' => capLoop limit f c'
+      | .ok c' => capLoop f c'
       | .err => .err
       | .panic => .panic
-    else .ok c
+    else .ok ()
 
-/-- `Parameter::parse` (after the repair of F20d: the capability loop runs to
-the end of the parameter value, `pos + 2 + len`). Returns (cursor after the
-parameter, its length octet). -/
+/-- `Parameter::parse`: for a Capabilities parameter the capabilities are
+validated inside a sub-parser limited to the parameter value (`parse_parser(len)`),
+exactly as the `capabilities()` iterator reads them later. Returns (cursor
+after the parameter, its length octet). -/
 def paramParse (c : Cur) : Outcome (Cur × Nat) :=
   let start := c.pos
   match c.u8 with
   | .ok (typ, c) =>
     match c.u8 with
     | .ok (len, c) =>
-      let r := if typ = 2 then capLoop (start + 2 + len) (c.remaining + 1) c else .ok c
+      let r : Outcome Unit :=
+        if typ = 2 then
+          match c.advance len with            -- parse_parser(len)?
+          | .ok _ => capLoop (len + 1) ⟨(c.data.drop c.pos).take len, 0⟩
+          | .err => .err
+          | .panic => .panic
+        else .ok ()
       match r with
-      | .ok c =>
+      | .ok () =>
         match c.seek start with
         | .ok c =>
           match c.advance (2 + len) with
